@@ -16,6 +16,7 @@ use std::process::Command;
 mod gcnodepth;
 mod gcnosafe;
 mod textcost;
+mod clinames;
 
 const KINDS: [&str; 7] = ["lcov", "jacoco", "gcovtext", "gcovjson", "gcno", "gcda", "gcno2m"];
 
@@ -382,6 +383,80 @@ fn huge_jacoco_counter(d: &[u8]) -> bool {
     false
 }
 
+
+/// review item 31: a real arithmetic-overflow panic of the gcno/gcda reader is the recorded
+/// finding C14-gcno-counter-overflow only if it is an ADD overflow and the Lean model of
+/// `Gcno::compute` crashes at its `overflow` site (the u64 counter sums) on the same bytes; any
+/// other overflow panic (a subtraction, a multiplication, an index computation) is a new defect
+pub fn counter_overflow_confirmed(rep: &mut Report, panic_text: &str, gcno: &[u8], gcdas: &[Vec<u8>]) -> bool {
+    if !(panic_text.contains("reader.rs") && panic_text.contains("attempt to add with overflow")) {
+        rep.count("overflow_matcher.not_an_add_overflow_in_reader");
+        return false;
+    }
+    let tok = |b: &[u8]| if b.is_empty() { "-".to_string() } else { hex(b) };
+    let mut req = format!("c14.gcno.crashsite 1 {}", tok(gcno));
+    for d in gcdas {
+        req.push(' ');
+        req.push_str(&tok(d));
+    }
+    let a = run_model(&[req], &rep.workdir, "c14crashsite").remove(0);
+    rep.count(&format!("overflow_matcher.model.{}", a.replace(' ', "_")));
+    a == "crash overflow"
+}
+
+/// review item 31: a crash on an input with a huge BRDA branch number / JaCoCo cb,mb counter is the
+/// recorded allocation finding only if the same input with those numbers clamped to 1 is read
+/// without a crash (then the allocation size is what killed the reader)
+fn clamped(kind: &str, d: &[u8]) -> Vec<u8> {
+    let t = String::from_utf8_lossy(d).into_owned();
+    let mut out = String::new();
+    if kind == "jacoco" {
+        let mut rest: &str = &t;
+        loop {
+            let next = ["cb=\"", "mb=\""].iter().filter_map(|k| rest.find(k).map(|i| (i, k.len()))).min();
+            match next {
+                Some((i, kl)) => {
+                    out.push_str(&rest[..i + kl]);
+                    rest = &rest[i + kl..];
+                    let digits: String = rest.chars().take_while(|c| c.is_ascii_digit()).collect();
+                    let big = digits.len() > 20 || digits.parse::<u128>().map(|n| n > 10_000_000).unwrap_or(false);
+                    out.push_str(if big { "1" } else { &digits });
+                    rest = &rest[digits.len()..];
+                }
+                None => {
+                    out.push_str(rest);
+                    break;
+                }
+            }
+        }
+    } else {
+        for l in t.split_inclusive('\n') {
+            if let Some(r) = l.strip_prefix("BRDA:") {
+                let mut f: Vec<String> = r.split(',').map(|x| x.to_string()).collect();
+                if f.len() >= 3 {
+                    let digits: String = f[2].chars().take_while(|c| c.is_ascii_digit()).collect();
+                    if digits.parse::<u64>().map(|n| n > 10_000_000).unwrap_or(false) {
+                        f[2] = format!("1{}", &f[2][digits.len()..]);
+                    }
+                }
+                out.push_str("BRDA:");
+                out.push_str(&f.join(","));
+            } else {
+                out.push_str(l);
+            }
+        }
+    }
+    out.into_bytes()
+}
+
+fn alloc_confirmed(rep: &mut Report, c: &Case) -> bool {
+    let cl = Case { kind: c.kind, what: "clamped".into(), data: clamped(c.kind, &c.data), aux: vec![] };
+    let o = run_batch(rep, &[cl], "clamped").remove(0).0;
+    let fine = o.starts_with("ok") || o.starts_with("err");
+    rep.count(if fine { "alloc_matcher.clamped_rerun.fine" } else { "alloc_matcher.clamped_rerun.still_fails" });
+    fine
+}
+
 fn panic_site(o: &str) -> Option<String> {
     // "panic /repo/src/reader.rs:244 message" -> "reader.rs:244"
     let rest = o.strip_prefix("panic ")?;
@@ -448,17 +523,21 @@ pub fn run(rep: &mut Report) {
         let case = json!({"op": "case", "kind": c.kind, "what": c.what, "data_hex": hex(&c.data), "aux_hex": hex(&c.aux), "outcome": o.chars().take(300).collect::<String>()});
         if o.starts_with("panic") && c.kind == "jacoco" && o.contains("capacity overflow") && huge_jacoco_counter(&c.data) {
             rep.fail("oracle", Some("C14-jacoco-branch-vector-alloc"), format!("JaCoCo cb/mb counter used as a vector length ({})", c.what), case);
-        } else if o.starts_with("panic") && (c.kind == "gcno" || c.kind == "gcda") && o.contains("reader.rs") && o.contains("with overflow") {
-            // known finding: counters near 2^64 overflow the u64 arithmetic of the flow propagation
+        } else if o.starts_with("panic") && (c.kind == "gcno" || c.kind == "gcda") && o.contains("with overflow") && {
+            let (g, d) = if c.kind == "gcno" { (&c.data, &c.aux) } else { (&c.aux, &c.data) };
+            counter_overflow_confirmed(rep, o, g, &[d.clone()])
+        } {
+            // known finding: counters near 2^64 overflow the u64 sums of the flow propagation (the model
+            // crashes at the same site on the same bytes)
             rep.fail("oracle", Some("C14-gcno-counter-overflow"), format!("arithmetic overflow in the gcno/gcda reader ({}): {}", c.what, o.chars().take(120).collect::<String>()), case);
         } else if o.starts_with("panic") {
             let site = panic_site(o).unwrap_or_default();
             rep.fail("oracle", Some(&format!("C14-panic@{}", site)), format!("reader panicked on malformed {} input ({}): {}", c.kind, c.what, o.chars().take(160).collect::<String>()), case);
         } else if o == "timeout" || o.starts_with("crash") || o.is_empty() {
             // known finding: a BRDA branch number is an allocation size
-            let finding = if c.kind == "lcov" && o.starts_with("crash") && huge_brda_branch(&c.data) {
+            let finding = if c.kind == "lcov" && o.starts_with("crash") && huge_brda_branch(&c.data) && alloc_confirmed(rep, c) {
                 Some("C14-lcov-branch-number-alloc")
-            } else if c.kind == "jacoco" && o.starts_with("crash") && huge_jacoco_counter(&c.data) {
+            } else if c.kind == "jacoco" && o.starts_with("crash") && huge_jacoco_counter(&c.data) && alloc_confirmed(rep, c) {
                 Some("C14-jacoco-branch-vector-alloc")
             } else {
                 None
@@ -501,6 +580,7 @@ pub fn run(rep: &mut Report) {
     gcnosafe::run(rep);
     gcnodepth::run(rep);
     textcost::run(rep);
+    clinames::run(rep);
 }
 
 /// the two recorded allocation findings: a number in the input is an allocation size
@@ -531,6 +611,9 @@ fn alloc_findings(rep: &mut Report) {
 pub fn replay(rep: &mut Report, case: &serde_json::Value) {
     if case["op"].as_str().unwrap_or("").starts_with("gcnosafe.") {
         return gcnosafe::replay(rep, case);
+    }
+    if case["op"].as_str().unwrap_or("").starts_with("clinames.") {
+        return clinames::replay(rep, case);
     }
     if case["op"].as_str().unwrap_or("").starts_with("textcost.") {
         return textcost::replay(rep, case);
